@@ -168,3 +168,32 @@ def real_concurrent(n=4, timeout=60):
         return outs, files
     finally:
         shutil.rmtree(d, ignore_errors=True)
+
+
+def real_slow_builder(sleep_s=5):
+    """(iii-b) re-enactment of the model's 'waiter times out while the builder is still compiling' outcome class with real
+    processes: the C compiler is wrapped by a script that sleeps; the waiter's timeout is shorter than the build."""
+    d = _scratch()
+    try:
+        cache = os.path.join(d, "c")
+        os.mkdir(cache)
+        cc = os.path.join(d, "slowcc.sh")
+        with open(cc, "w") as f:
+            f.write("#!/bin/sh\nsleep %d\nexec gcc \"$@\"\n" % sleep_s)
+        os.chmod(cc, 0o755)
+        env = dict(os.environ, CC=cc, LDSHARED=cc + " -shared")
+        builder = subprocess.Popen([PY, "-c", _REQ, cache, "60"], stdout=subprocess.PIPE, text=True, env=env)
+        # wait until the builder holds the lock
+        import time
+
+        t0 = time.time()
+        while time.time() - t0 < 120 and not any(f.endswith(".c") for f in os.listdir(cache)):
+            time.sleep(0.05)
+        waiter = subprocess.Popen([PY, "-c", _REQ, cache, "2"], stdout=subprocess.PIPE, text=True)
+        wout = json.loads(waiter.communicate(timeout=600)[0].strip().splitlines()[-1])
+        bout = json.loads(builder.communicate(timeout=900)[0].strip().splitlines()[-1])
+        later = subprocess.run([PY, "-c", _REQ, cache, "2"], capture_output=True, text=True, timeout=600)
+        lout = json.loads(later.stdout.strip().splitlines()[-1])
+        return dict(builder=bout, waiter=wout, later=lout)
+    finally:
+        shutil.rmtree(d, ignore_errors=True)
